@@ -549,6 +549,49 @@ func runC10OneShot(c *core.Ctx) {
 		c.Probe("one-shot-gather-then-restart")
 		return
 	}
+	if c.T.Bias(1, 3, "gather-then-gather") {
+		// two GatherCandidates calls queued behind the busy loop: whether the second is refused or supersedes the
+		// first, the outcome is that of whole operations - ONE cycle's worth of candidates (one host candidate
+		// for the one address, one end-of-candidates marker), never the sum of two cycles running side by side
+		var e1, e2 error
+		var d1, d2 atomic.Bool
+		go func() { e1 = ag.A.GatherCandidates(); d1.Store(true) }()
+		synctest.Wait()
+		go func() { e2 = ag.A.GatherCandidates(); d2.Store(true) }()
+		synctest.Wait()
+		c.Fault("two-gathers-queued-behind-busy-loop")
+		close(release)
+		for i := 0; i < 50 && !(d1.Load() && d2.Load()); i++ {
+			synctest.Wait()
+			time.Sleep(10 * time.Millisecond)
+		}
+		if !d1.Load() || !d2.Load() {
+			c.Failf("C10/one-shot-call-never-returns", "GatherCandidates did not return after the loop was released")
+			return
+		}
+		if e1 != nil {
+			c.Failf("C10/queued-call-fails", "the first of two queued GatherCandidates calls returned %v", e1)
+			return
+		}
+		time.Sleep(3 * time.Second)
+		synctest.Wait()
+		lc, _ := ag.A.GetLocalCandidates()
+		nils, hosts := 0, 0
+		for _, cand := range ag.CandSeq() {
+			if cand == nil {
+				nils++
+			} else {
+				hosts++
+			}
+		}
+		if len(lc) != 1 || nils != 1 {
+			c.Failf("C10/overlapping-gathers-not-serialised", "two GatherCandidates calls queued back to back (second returned %v): the agent lists %d local candidates (%v) for its one address, %d candidate callbacks and %d end-of-candidates markers were delivered - two cycles ran side by side",
+				e2, len(lc), candList(lc), hosts, nils)
+			return
+		}
+		c.Probe("one-shot-gather-then-gather")
+		return
+	}
 	kind := 0
 	n := c.T.Range(2, 3, "ncalls")
 	type res struct {
